@@ -588,6 +588,7 @@ class Report:
         ledger = self.load_ledger()
         open_entries = [e for e in ledger.get("open", []) if e.get("property") == self.prop]
         seen_open = set()
+        seen_unlisted = set()
         unlisted = []
         known = []
         out = []
@@ -624,7 +625,8 @@ class Report:
                     if key not in seen_open:
                         seen_open.add(key)
                         known.append((v, entry))
-                else:
+                elif key not in seen_unlisted:
+                    seen_unlisted.add(key)
                     unlisted.append(v)
                 P(f"    {v['at'] or '-'}  {v['rule']}  {v['construct']}  {v['message']}")
             for n in r.notes:
